@@ -988,9 +988,12 @@ def compare_answer(ctx, case, line, expect, ans):
         assert w[pos] == "R"
         rel = [b2f(int(x)) for x in w[pos + 1:]]
         impl_rel = expect["release"]
+        rtol = 1e-12
         if expect.get("cast") is not None:
+            # the releases live in a float32 array (and `std` takes its square root there): compare at float32 precision
             rel = [float(expect["cast"](x)) for x in rel]
-        if len(rel) != len(impl_rel) or any(not close(a, b, 1e-12) for a, b in zip(rel, impl_rel)):
+            rtol = 3e-7
+        if len(rel) != len(impl_rel) or any(not close(a, b, rtol) for a, b in zip(rel, impl_rel)):
             ctx.disagree("tools.release", {"case": brief(case)}, rel[:6], impl_rel[:6])
             return False
         return True
